@@ -7,7 +7,7 @@ import ast
 from ..core import Ctx, RuleResult, finding, short, walk_no_nested
 from ..model import AnalysisError, norm
 from ..mutants import Mut
-from ..rules import dim, inv
+from ..rules import accum, axis, dim, inv
 from ..rules.defuse import DefUse
 from ..rules.util import callee_name, cfg_of, lin_str, linear, nodes_where
 
@@ -233,6 +233,8 @@ def run(ctx: Ctx):
         inv.run_inv_bypass(p, "C19.2c", floor=4),
         rule_margins(ctx),
         rule_gridflow_budget(ctx),
+        axis.run_axis(p, "C19.5", ("urwid.widget",), floor=120),
+        accum.run_accum(p, "C19.6", "C19", floor=2),
     ]
 
 
@@ -242,6 +244,9 @@ _PD = "urwid/widget/padding.py"
 _FL = "urwid/widget/filler.py"
 _G = "urwid/widget/grid_flow.py"
 MUTANTS = [
+    Mut("drop-loop-skips-hidden-columns", "urwid/widget/columns.py", "Columns.column_widths", "            shared += width_ + self.dividechars\n            widths[i] = 0", "            if not width_:\n                continue\n            shared += width_ + self.dividechars\n            widths[i] = 0", "ACCUM|widget.columns.Columns.column_widths"),
+    Mut("overlay-valign-from-align-amount", "urwid/widget/overlay.py", "Overlay.calculate_padding_filler", "                self.valign_type,\n                self.valign_amount,\n                self.height_type,", "                self.valign_type,\n                self.align_amount,\n                self.height_type,", "AXIS|widget.overlay.Overlay.calculate_padding_filler"),
+    Mut("filler-top-bottom-swapped", "urwid/widget/filler.py", "Filler.filler_values", "            self.min_height,\n            self.top,\n            self.bottom,", "            self.min_height,\n            self.bottom,\n            self.top,", "AXIS|widget.filler.Filler.filler_values"),
     Mut("columns-weight-total-kept", _C, "Columns.column_widths", "                grow -= width\n                wtotal -= weight\n", "                grow -= width\n", "ORDER|widget.columns.Columns.column_widths"),
     Mut("columns-unsorted-clamped", _C, "Columns.column_widths", "for weight, i in sorted(weighted):", "for weight, i in weighted:", "ORDER|widget.columns.Columns.column_widths"),
     Mut("pile-remaining-kept", _P, "Pile.get_item_rows", "                remaining -= rows\n                wtotal -= height\n", "                wtotal -= height\n", "ORDER|widget.pile.Pile.get_item_rows"),
